@@ -28,3 +28,17 @@ package stdlib_contracts
 //@ assumed
 //@ modifies s[0:len(s)]
 //@ ensures forall(i, 0, len(s), s[i] == old(s[len(s)-1-i]))
+
+//@ package strings
+//@ func HasPrefix
+//@ assumed
+//@ pure
+//@ ensures result == (len(s) >= len(prefix) && forall(i, 0, len(prefix), s[i] == prefix[i]))
+
+//@ package cmp
+//@ func Compare[string]
+//@ assumed
+//@ pure
+//@ ensures (result < 0) == lexlt(x, y)
+//@ ensures (result == 0) == (x == y)
+//@ ensures -1 <= result && result <= 1
